@@ -47,8 +47,13 @@ pub fn anim_desc_strategy() -> impl Strategy<Value = AnimDesc> {
             w_anim => (comp(), comp(), comp()).prop_map(|(a, b, c)| Some(vec![a, b, c])),
         ]
     };
-    (st(6, 1), st(6, 1), st(6, 1), st(1, 6), st(1, 6), 0u8..5, vals_strategy(), 0u8..16)
-        .prop_map(|(s0, s1, s2, s3, s4, initial_state, initial_values, builder_order)| AnimDesc { states: vec![s0, s1, s2, s3, s4], initial_state, initial_values, builder_order })
+    (st(6, 1), st(6, 1), st(6, 1), st(1, 6), st(1, 6), 0u8..5, vals_strategy(), 0u8..32)
+        .prop_map(|(s0, s1, s2, s3, s4, initial_state, initial_values, builder_order)| {
+            // bit 4 of the builder order: the animator starts from the target type's Default values and
+            // `from_values` is not called at all
+            let initial_values = if builder_order & 16 != 0 { Vals { a: 0.0, b: 0.0, c: 0, d: 0 } } else { initial_values };
+            AnimDesc { states: vec![s0, s1, s2, s3, s4], initial_state, initial_values, builder_order }
+        })
 }
 
 pub fn step_strategy() -> impl Strategy<Value = Step> {
